@@ -101,6 +101,7 @@ type xStmt struct {
 }
 type xPortal struct {
 	St     *xStmt
+	Off    int // rows already delivered, on a server that honours Execute row limits (-1: ran to its end)
 	BindID int
 	Params [][]byte
 	PFmts  []int16
@@ -114,12 +115,16 @@ type xState struct {
 	// (0 = not seen yet, 1 = keeps them, 2 = destroys them all, 3 = destroys the unnamed one).
 	// Which of the three the server does is left open; that it does the same at every Sync is not.
 	pol int
+	// lim: what the server does with an Execute row limit below the number of rows (0 = not seen yet,
+	// 1 = ignores it and sends everything, 2 = honours it: sends that many rows and PortalSuspended,
+	// the rest on further Executes). Either is admissible; the same at every Execute.
+	lim int
 }
 
 func newXState() *xState { return &xState{stmts: map[string]*xStmt{}, portals: map[string]*xPortal{}} }
 
 func (s *xState) clone() *xState {
-	n := &xState{stmts: map[string]*xStmt{}, portals: map[string]*xPortal{}, skip: s.skip, pol: s.pol}
+	n := &xState{stmts: map[string]*xStmt{}, portals: map[string]*xPortal{}, skip: s.skip, pol: s.pol, lim: s.lim}
 	for k, v := range s.stmts {
 		n.stmts[k] = v
 	}
@@ -135,21 +140,23 @@ func (s *xState) key() string {
 		parts = append(parts, "s"+k+"="+v.H.ID)
 	}
 	for k, v := range s.portals {
-		parts = append(parts, fmt.Sprintf("p%s=%d", k, v.BindID))
+		parts = append(parts, fmt.Sprintf("p%s=%d@%d", k, v.BindID, v.Off))
 	}
 	sort.Strings(parts)
-	return fmt.Sprintf("%v%d|%s", s.skip, s.pol, strings.Join(parts, ","))
+	return fmt.Sprintf("%v%d%d|%s", s.skip, s.pol, s.lim, strings.Join(parts, ","))
 }
 
 // xExp is one admissible outcome of a message.
 type xExp struct {
-	reply  []expMsg
-	parses int      // parser invocations
-	exec   *xPortal // portal whose statement must run (nil: none)
-	next   *xState
-	any    bool // reply left open: E with or without Z, or nothing
-	simple *hs.Prog
-	closes bool // the server must close the connection (Terminate)
+	reply   []expMsg
+	parses  int      // parser invocations
+	exec    *xPortal // portal whose statement must run (nil: none)
+	next    *xState
+	any     bool // reply left open: E with or without Z, or nothing
+	free    bool // reply and callbacks left open altogether (Execute of a portal that has run to its end on a server that honours row limits)
+	execAny bool // the statement function may or may not run (a suspended portal that is continued)
+	simple  *hs.Prog
+	closes  bool // the server must close the connection (Terminate)
 }
 
 func rowDescExp(cols wire.Columns, rfmts []int16) expMsg {
@@ -269,12 +276,68 @@ func (s *xState) step(m xMsg) []xExp {
 			return fail(0)
 		}
 		r, failed := stmtReply(p.St.H)
-		n := s
-		if failed {
-			n = s.clone()
-			n.skip = true
+		nrows := 0
+		for _, em := range r {
+			if em.T == 'D' {
+				nrows++
+			}
 		}
-		return []xExp{{reply: r, exec: p, next: n}}
+		var out []xExp
+		limited := m.Lim > 0 && m.Lim < nrows
+		if s.lim != 2 && p.Off == 0 {
+			// the server sends everything (no limit, a limit not below the number of rows, or a limit it ignores)
+			n := s
+			if failed || limited {
+				n = s.clone()
+				n.skip = failed
+				if limited {
+					n.lim = 1
+				}
+			}
+			out = append(out, xExp{reply: r, exec: p, next: n})
+		}
+		if s.lim != 1 && (limited || p.Off != 0) {
+			// the server honours row limits: rows p.Off .. p.Off+limit-1, then PortalSuspended - or the rest and the end
+			if p.Off < 0 {
+				return append(out, xExp{free: true, next: s})
+			}
+			rem := nrows - p.Off
+			np := *p
+			n := s.clone()
+			n.lim = 2
+			n.portals[m.Portal] = &np
+			var part []expMsg
+			seen := 0
+			for _, em := range r {
+				if em.T != 'D' {
+					continue
+				}
+				if seen >= p.Off && (m.Lim == 0 || seen < p.Off+m.Lim) {
+					part = append(part, em)
+				}
+				seen++
+			}
+			if m.Lim > 0 && rem > m.Lim {
+				np.Off = p.Off + m.Lim
+				part = append(part, expMsg{T: 's'})
+			} else {
+				np.Off = -1
+				for _, em := range r {
+					if em.T != 'D' {
+						part = append(part, em)
+					}
+				}
+				n.skip = failed
+			}
+			e := xExp{reply: part, next: n}
+			if p.Off == 0 {
+				e.exec = p
+			} else {
+				e.execAny = true
+			}
+			out = append(out, e)
+		}
+		return out
 	case "closeS":
 		n := s.clone()
 		st := n.stmts[m.Name]
@@ -386,6 +449,9 @@ func openOutcomes(s *xState) []xExp {
 
 // matchReply compares an observed reply with an expected one.
 func matchReply(msgs []pg.BMsg, e xExp) (bool, string) {
+	if e.free {
+		return true, ""
+	}
 	if e.any {
 		t := pg.Types(msgs)
 		if t == "" || t == "E" || t == "EZ" {
@@ -558,8 +624,9 @@ func histString(h []xMsg) string {
 // row limits of Execute messages and, in a quarter of the histories, long names for "a" and "b".
 func xPrepare(c *core.Ctx, h []xMsg) []xMsg {
 	h = append([]xMsg(nil), h...)
-	// row limits of Execute: "no limit" or a limit that the (at most two) rows of a scripted statement
-	// never reach, where "all rows, then CommandComplete" is what every reading of the protocol demands
+	// row limits of Execute: none, one that the (at most two) rows of a scripted statement never reach, or 1:
+	// a server may ignore a limit below the row count or honour it (PortalSuspended, the rest later) - the model
+	// admits both, the same one at every Execute
 	if core.H64("names "+histString(h))%4 == 0 {
 		// names are arbitrary strings: in a quarter of the histories "a" and "b" are two long names that
 		// share their first 63 bytes (PostgreSQL's identifier length) and differ only behind them
@@ -576,7 +643,7 @@ func xPrepare(c *core.Ctx, h []xMsg) []xMsg {
 	}
 	for i := range h {
 		if h[i].K == "exec" {
-			h[i].Lim = []int{0, 0, 2, 3, 1000, 1<<31 - 1}[core.H64(fmt.Sprint(i, h[i].Portal, len(h)))%6]
+			h[i].Lim = []int{0, 0, 2, 3, 1000, 1<<31 - 1, 1, 1}[core.H64(fmt.Sprint(i, h[i].Portal, len(h)))%8]
 		}
 	}
 	return h
@@ -665,7 +732,7 @@ func judgeHistoryY(c *core.Ctx, env *hs.Env, h []xMsg, cs any, yield func()) (ok
 					why = w
 					continue
 				}
-				if !e.any {
+				if !e.any && !e.free {
 					if len(parses) != e.parses {
 						why = fmt.Sprintf("parser invoked %d time(s), expected %d", len(parses), e.parses)
 						continue
@@ -674,8 +741,8 @@ func judgeHistoryY(c *core.Ctx, env *hs.Env, h []xMsg, cs any, yield func()) (ok
 					if e.exec != nil {
 						nexec = 1
 					}
-					if e.simple != nil {
-						nexec = -1 // simple query: statement count judged by C05
+					if e.simple != nil || e.execAny {
+						nexec = -1 // simple query: statement count judged by C05; a continued portal: the function may have run to its end before
 					}
 					if nexec >= 0 && len(execs) != nexec {
 						why = fmt.Sprintf("%d statement function(s) ran, expected %d", len(execs), nexec)
